@@ -38,7 +38,7 @@ def build(ctx, define, mats, null_mats, timeout, hc=3, init_mats=()):
     hp = ctx.path('h_make.c'); open(hp, 'w').write('\n'.join(H) + '\n')
     from concurrent.futures import ThreadPoolExecutor
     with ThreadPoolExecutor(2) as ex:
-        f1 = ex.submit(ctx.gotocc, 'mk', [c, hp], [define, 'HC=%d' % hc]); f2 = ex.submit(ctx.gotocc, 'mkw', [c, hp], [define, 'HC=%d' % hc, 'WITNESS'])
+        f1 = ex.submit(ctx.gotocc, 'mk', [c, hp], [define, 'HC=%d' % hc, 'S_USE_BITBOARD_ORACLE']); f2 = ex.submit(ctx.gotocc, 'mkw', [c, hp], [define, 'HC=%d' % hc, 'WITNESS', 'S_USE_BITBOARD_ORACLE'])
         gb, gbw = f1.result(), f2.result()
     qs, ws = [], []
     for fn, smp, mat in names:
@@ -56,7 +56,7 @@ def maxc(mat):
 
 def unwindset(n):
     # loops with fixed trip counts in the harness/oracle; engine piece-list scans are bounded by the material size
-    return {'pos_build.0': 65, 'pos_build.1': n + 1, 's_king_sq.0': 65, 's_attacked.0': 9, 's_attacked.1': 9, 's_attacked.2': 9, 's_path_clear.0': 7,
+    return {'pos_build.0': 65, 'pos_build.1': n + 1, 's_king_sq.0': 65, 's_attacked.0': 9, 's_attacked.1': 9, 's_attacked.2': 9, 's_attacked_bb.0': 65, 'sb_fill.0': 8, 's_path_clear.0': 7,
             'zobrist_tables_arbitrary.0': 17, 'zobrist_tables_arbitrary.1': 9,
             'check_ri.0': 65, 'check_ri.1': 14, 'check_ri.2': 7, 'check_ri.3': 9, 'check_ri.4': 9, 'check_ri.5': 14, 'xor_cells.0': 6, 'xor_cells.1': 6, 'only_touched_differ.0': 65, 'only_touched_differ.1': 6, 'make_case.2': 65, 'make_case.0': 65, 'make_case.1': 65, 'null_case.0': 65, 'null_case.1': 65,
             '_ZN6engine8Position12remove_pieceENS_6SquareE.0': n + 1, '_ZN6engine8Position10move_pieceENS_6SquareES1_.0': n + 1, 'fill7.0': 8}
@@ -67,7 +67,7 @@ ASSUME = ['slider_attack<> is not used by these functions; no engine move genera
           'piece/pawn/side key parts are arbitrary and only their change is checked (induction step); the base case is HashKey::init (C04 h_init_*) '
           'called by the FEN constructor, whose iostream parsing is not encoded',
           'PIECE_HASH: indicator-table encoding justified by the XOR-linearity check on the IR; CASTLING/ENPASSANT/SIDE tables fully arbitrary',
-          'mailbox rules reference rt/chess_spec.h is trusted (cross-checked against the engine by C01)',
+          'mailbox rules reference rt/chess_spec.h is trusted (cross-checked against the engine by C01); its attack test is used in the bit-parallel formulation s_attacked_bb, which the C07 lemma query proves equal to the mailbox ray walk on every board',
           'half-move clock <= 150 and ply < 100000 in the pre-state (uint8_t wrap at 256 outside the claim); history index fixed (boundary is C10)']
 
 
